@@ -903,7 +903,7 @@ func (in *Interp) conv(tdst, tsrc types.Type, x Value) Value {
 					if xv == nil {
 						return mkConst(0, 64)
 					}
-					panic(unsupported{"uintptr(pointer)"})
+					panic(unsupported{"uintptr(pointer) at " + in.where()})
 				}
 			}
 		}
